@@ -73,9 +73,12 @@ fn real_tokens(line: &str) -> Result<Vec<String>, String> {
 
 pub const C07_SIGMA: [&str; 6] = ["a", " ", "\"", "\\", "-", "é"];
 
-pub fn c07_lines(max_len: u32) -> EnumOutcome {
+/// characters whose encodings contain the bytes 0x85 / 0xA0 (white space in Latin-1) and a 3-byte blank
+pub const C07_SIGMA2: [&str; 7] = ["a", " ", "\"", "à", "\u{85}", "\u{3000}", "\u{a0}"];
+
+pub fn c07_lines(sigma: &'static [&'static str], max_len: u32) -> EnumOutcome {
     let t0 = Instant::now();
-    let total = count_strings(6, max_len);
+    let total = count_strings(sigma.len() as u64, max_len);
     let chunk = 4096u64;
     let nchunks = (total + chunk - 1) / chunk;
     let mut out = (0..nchunks)
@@ -84,7 +87,7 @@ pub fn c07_lines(max_len: u32) -> EnumOutcome {
             let mut o = EnumOutcome::default();
             let mut line = String::new();
             for idx in ci * chunk..((ci + 1) * chunk).min(total) {
-                nth_string(&C07_SIGMA, idx, &mut line);
+                nth_string(sigma, idx, &mut line);
                 o.evaluations += 1;
                 let adm = tokens_adm(&line);
                 if line.contains('"') || adm.iter().any(|t| t.len() >= 2) {
@@ -120,8 +123,8 @@ pub fn c07_lines(max_len: u32) -> EnumOutcome {
             a.merge(b);
             a
         });
-    out.name = format!("tokeniser: every line of <= {} symbols over {{a, space, quote, backslash, dash, é}}", max_len);
-    out.rule = "all strings enumerated by index (count checked against sum 6^l); non-trivial = contains a quote or yields >= 2 tokens".into();
+    out.name = format!("tokeniser: every line of <= {} symbols over {:?}", max_len, sigma);
+    out.rule = "all strings enumerated by index (count checked against the closed form sum k^l); non-trivial = contains a quote or yields >= 2 tokens".into();
     out.expected = Some(total);
     out.exhaustive = out.evaluations == total;
     out.samples = vec![json!("\"\" a"), json!("a\"b \"c d\""), json!("\"\\\"é\\\\\" -")];
